@@ -15,6 +15,8 @@ are exercised by the correspondence under ASan/UBSan only.
 -/
 import SharkVerif.Lemmas.Import
 import SharkVerif.Lemmas.Peg
+import SharkVerif.Model.ImportCsv
+import SharkVerif.Model.ExportFmt
 namespace SharkVerif.C19
 open SharkVerif.Import SharkVerif.Import.Svm
 
@@ -98,12 +100,12 @@ theorem sparse_writes_in_bounds (zero : V) (labelInt : V → Option Int) (cfg : 
             · simp at hl
           simp [hrecs, hc] at hempty
 
-/-- **C19, memory safety of the LibSVM logic as it is in `/repo` — partial.**
-Only under the hypothesis that the indices of every record are strictly
-increasing (which the code does not check: see the witnesses below) does the
-current importer stay inside its vectors.  Missing for full strength: the
-hypothesis `hs`, and the empty classification file (`empty_input_witness`). -/
-theorem sparse_writes_in_bounds_partial (zero : V) (labelInt : V → Option Int) (cfg : Cfg)
+/-- **History: the LibSVM logic before the fixes 389df0e0 / a37b5a55 / 56711b68** (`importCurrent`; the tree
+now has the logic `importRepaired`, for which `sparse_writes_in_bounds` holds without hypothesis).  The
+pre-fix logic stayed inside its vectors only when the indices of every record were strictly increasing —
+which is exactly the check the fix added to `importSparseDataReader`; the witnesses at the end of this file
+show what happened without it, and are what a mutation removing the check is caught by. -/
+theorem legacy_writes_in_bounds_of_sorted (zero : V) (labelInt : V → Option Int) (cfg : Cfg)
     (recs : List (Rec V)) (hs : recs.all recSorted = true) :
     ∀ i n, importCurrent zero labelInt cfg recs ≠ .oobWrite i n := by
   intro i n
@@ -430,6 +432,182 @@ theorem import_wellformed_or_error {V : Type} :
   ⟨import_wellformed_or_error_svm, import_wellformed_or_error_csv_rows, import_wellformed_or_error_csv_class,
    import_wellformed_or_error_csv_regr⟩
 
+
+/-! ## from BYTES: every importer overload, reader and logic composed -/
+
+/-- `optimalBatchSizes n 0 = [n]`: with the repair of finding F10 (`maximumBatchSize = 0` means
+"unlimited", as in the constructors of `Data`) the C++ computes exactly this; the tree as it is divides
+by zero there (known finding, probed on every run). -/
+theorem optimalBatchSizes_zero {n : Nat} (hn : 0 < n) : optimalBatchSizes n 0 = [n] := by
+  have h1 : n - 0 > 0 := by omega
+  simp [optimalBatchSizes, hn, List.range_succ]
+
+/-- the batch part of `DataSet.wf` for every maximum batch size, 0 (= unlimited) included -/
+theorem csv_batches_ok_all {n : Nat} (maxB : Nat) (hn : 0 < n) :
+    ((optimalBatchSizes n maxB).foldl (· + ·) 0 == n) = true ∧
+    (maxB == 0 || (optimalBatchSizes n maxB).all (fun b => decide (b ≤ maxB))) = true := by
+  by_cases hm : maxB = 0
+  · subst hm; rw [optimalBatchSizes_zero hn]; simp
+  · exact csv_batches_ok hn (Nat.pos_of_ne_zero hm)
+
+/-- what the property allows an importer to do: a well-formed dataset with one element per record, the
+library's exception, or (dense LibSVM vectors beyond the harness' allocation limit) `bad_alloc` -/
+def Acceptable (o : Outcome Val) (maxBatch : Nat) : Prop :=
+  match o with
+  | .ok d => d.wf maxBatch = true
+  | .error => True
+  | .allocFail => True
+  | .oobWrite _ _ => False
+  | .ubEmptyMax => False
+
+/-- **C19, first sentence, LibSVM importers, from bytes (full strength).**  For EVERY byte sequence and every
+configuration (dense/sparse, classification/regression, `highestIndex`, batch size) the model of
+`importSparseData` — line splitting, the `phrase_parse` record grammar, the index-order check, then the
+importer logic — returns a well-formed dataset, the exception or `bad_alloc`; it never writes out of
+bounds, never evaluates `max_element` of an empty batch. -/
+theorem import_bytes_wellformed_or_error_svm (cfg : Cfg) (bytes : List Char) :
+    Acceptable (Svm.importBytes cfg bytes) cfg.bs := by
+  unfold Svm.importBytes
+  cases svmRecords bytes with
+  | none => trivial
+  | some recs =>
+    simp only
+    have h := import_wellformed_or_error_svm Val.zero Val.toInt32 cfg
+      (recs.map fun r => ({ label := r.1, feats := r.2 } : Rec Val))
+    revert h
+    cases importRepaired Val.zero Val.toInt32 cfg (recs.map fun r => ({ label := r.1, feats := r.2 } : Rec Val)) with
+    | ok d => intro h; exact h.1
+    | error => intro _; trivial
+    | allocFail => intro _; trivial
+    | oobWrite i n => intro h; exact h
+    | ubEmptyMax => intro h; exact h
+
+/-- `importRows` for every maximum batch size -/
+theorem importRows_acceptable (rows : List (List Val)) (maxB : Nat) : Acceptable (Csv.importRows rows maxB) maxB := by
+  unfold Csv.importRows
+  cases rows with
+  | nil => simp [Acceptable, Csv.emptySet, DataSet.wf]
+  | cons r0 t =>
+    simp only
+    by_cases hall : ((r0 :: t).all fun r => r.length == r0.length) = true
+    · rw [if_pos hall]
+      have hb := csv_batches_ok_all (n := (r0 :: t).length) maxB (by simp)
+      simp only [Acceptable, DataSet.wf, Bool.and_eq_true, List.all_eq_true]
+      refine ⟨⟨⟨?_, by simpa using hb.1⟩, trivial⟩, hb.2⟩
+      intro r hr
+      obtain ⟨xs, hxs, rfl⟩ := List.mem_map.mp hr
+      have := List.all_eq_true.mp hall xs hxs
+      simp only [beq_iff_eq] at this
+      simp [Row.dim, Row.wf, this]
+    · rw [if_neg hall]; trivial
+
+theorem importClass_acceptable (pts : List (Int × List Val)) (maxB : Nat) : Acceptable (Csv.importClass pts maxB) maxB := by
+  unfold Csv.importClass
+  cases pts with
+  | nil => simp [Acceptable, Csv.emptySet, DataSet.wf]
+  | cons p0 t =>
+    simp only
+    cases hl : classLabels ((p0 :: t).map fun p => some p.1) with
+    | none => trivial
+    | some labels =>
+      simp only
+      by_cases hall : ((p0 :: t).all fun p => p.2.length == p0.2.length) = true
+      · rw [if_pos hall]
+        have hb := csv_batches_ok_all (n := (p0 :: t).length) maxB (by simp)
+        have hlen := classLabels_length hl
+        simp only [Acceptable, DataSet.wf, Bool.and_eq_true, List.all_eq_true]
+        refine ⟨⟨⟨?_, by simpa using hb.1⟩, by simpa using hlen⟩, hb.2⟩
+        intro r hr
+        obtain ⟨p, hp, rfl⟩ := List.mem_map.mp hr
+        have := List.all_eq_true.mp hall p hp
+        simp only [beq_iff_eq] at this
+        simp [Row.dim, Row.wf, this]
+      · rw [if_neg hall]; trivial
+
+theorem importRegr_acceptable (rows : List (List Val)) (labelFirst : Bool) (numOut maxB : Nat) :
+    Acceptable (Csv.importRegr rows labelFirst numOut maxB) maxB := by
+  by_cases hm : maxB = 0
+  · -- maxB = 0: one batch
+    subst hm
+    unfold Csv.importRegr
+    cases rows with
+    | nil => simp [Acceptable, Csv.emptySet, DataSet.wf]
+    | cons r0 t =>
+      simp only
+      by_cases hgt : r0.length > numOut
+      · rw [if_neg (by simpa using hgt)]
+        by_cases hall : ((r0 :: t).all fun r => r.length == r0.length) = true
+        · rw [if_pos hall]
+          have hb := csv_batches_ok_all (n := (r0 :: t).length) 0 (by simp)
+          simp only [Acceptable, DataSet.wf, Bool.and_eq_true, List.all_eq_true]
+          refine ⟨⟨⟨?_, by simpa using hb.1⟩, ⟨by simp, ?_⟩⟩, hb.2⟩
+          · intro r hr
+            obtain ⟨xs, hxs, rfl⟩ := List.mem_map.mp hr
+            have := List.all_eq_true.mp hall xs hxs
+            simp only [beq_iff_eq] at this
+            simp only [Row.dim, Row.wf, Bool.and_true, beq_iff_eq, Option.some.injEq, List.length_take,
+              List.length_drop, this]
+            cases labelFirst <;> simp <;> omega
+          · intro l hl
+            obtain ⟨xs, hxs, rfl⟩ := List.mem_map.mp hl
+            have := List.all_eq_true.mp hall xs hxs
+            simp only [beq_iff_eq] at this
+            simp only [beq_iff_eq, Option.some.injEq, List.length_take, List.length_drop, this]
+            cases labelFirst <;> simp <;> omega
+        · rw [if_neg hall]; trivial
+      · rw [if_pos (by simpa using hgt)]; trivial
+  · have h := import_wellformed_or_error_csv_regr rows labelFirst numOut maxB (Nat.pos_of_ne_zero hm)
+    revert h
+    cases Csv.importRegr rows labelFirst numOut maxB with
+    | ok d => intro h; exact h.1
+    | error => intro _; trivial
+    | allocFail => intro _; trivial
+    | oobWrite i n => intro h; exact h
+    | ubEmptyMax => intro h; exact h
+
+/-- **C19, first sentence, CSV importers, from bytes (full strength).**  For EVERY byte sequence, separator,
+comment character, label position, number of outputs and maximum batch size (0 = unlimited included) the
+models of the three `csvStringToData` families — the PEG model of the `phrase_parse` grammar, then the
+post-parse logic — return a well-formed dataset or the library's exception. -/
+theorem import_bytes_wellformed_or_error_csv (bytes : List Char) (sep comment : Char) (labelFirst : Bool)
+    (numOut maxB : Nat) :
+    Acceptable (Csv.importRowsBytes bytes sep comment maxB) maxB ∧
+    Acceptable (Csv.importClassBytes bytes labelFirst sep comment maxB) maxB ∧
+    Acceptable (Csv.importRegrBytes bytes labelFirst numOut sep comment maxB) maxB := by
+  refine ⟨?_, ?_, ?_⟩
+  · unfold Csv.importRowsBytes
+    cases Csv.readRows bytes sep comment with
+    | none => trivial
+    | some rows => exact importRows_acceptable rows maxB
+  · unfold Csv.importClassBytes
+    cases (if labelFirst then Csv.readPointsFirst bytes sep comment else Csv.readPointsLast bytes sep comment) with
+    | none => trivial
+    | some pts => exact importClass_acceptable pts maxB
+  · unfold Csv.importRegrBytes
+    cases Csv.readRows bytes sep comment with
+    | none => trivial
+    | some rows => exact importRegr_acceptable rows labelFirst numOut maxB
+
+/-- the title lines of `importCSV(Data<T>&, fn, …, titleLines)` only shorten the input: the file overloads
+are the string overloads on a suffix, so the theorem above covers them -/
+theorem dropTitleLines_suffix : ∀ (k : Nat) (s : List Char), ∃ p, s = p ++ Csv.dropTitleLines k s := by
+  intro k s
+  induction s generalizing k with
+  | nil => cases k <;> exact ⟨[], by simp [Csv.dropTitleLines]⟩
+  | cons c t ih =>
+    cases k with
+    | zero => exact ⟨[], by simp [Csv.dropTitleLines]⟩
+    | succ k =>
+      simp only [Csv.dropTitleLines]
+      split
+      · obtain ⟨p, hp⟩ := ih k; exact ⟨c :: p, by rw [List.cons_append, ← hp]⟩
+      · obtain ⟨p, hp⟩ := ih (k + 1); exact ⟨c :: p, by rw [List.cons_append, ← hp]⟩
+
+/-- non-vacuity: bytes that do import — `"1,2\n3,4\n"`, unlimited batch size -/
+example : (match Csv.importRowsBytes "1,2\n3,4\n".toList ',' '#' 0 with
+    | .ok d => d.rows.length == 2 && d.batches == [2]
+    | _ => false) = true := by decide
+
 /-! ## exporters then importers (token level) -/
 
 /-- **CSV round trip, classification (token level).**  The records `exportCSV` writes for a
@@ -666,7 +844,7 @@ theorem empty_input_witness :
     importCurrent (0 : Nat) (fun v => some (v : Int)) wcfg [] = .ubEmptyMax := by
   decide
 
-/-- non-vacuity of the hypothesis of `sparse_writes_in_bounds_partial`, and of the
+/-- non-vacuity of the hypothesis of `legacy_writes_in_bounds_of_sorted`, and of the
 `ok` branch: a sorted two-record file is imported -/
 example : (match importCurrent (0 : Nat) (fun v => some (v : Int)) wcfg
     [⟨1, [(1, 7), (3, 8)]⟩, ⟨0, [(2, 9)]⟩] with
